@@ -9,9 +9,10 @@ artefact *is* the stand-alone reproduction); the reference model
 the value and encoding of t (and u) are compared with the model, then a battery
 of observation expressions (scalar / element / column indexing, comparisons,
 conversions, concatenation, copy, strops) is evaluated, each on the
-*unperturbed* representation (npstructures' ravel() flattens a view in place,
-so the history is replayed again whenever an observation changed the
-representation signature).  States are merged on
+*unperturbed* representation: npstructures' ravel() flattens a view in place,
+so every observation runs on shallow snapshots of the registers (same
+attribute objects, same representation) and the real registers' signature is
+re-checked afterwards.  States are merged on
 (model t, model u, sharing link, representation signature of t and u).
 """
 import numpy as np
@@ -48,14 +49,17 @@ ASSUMPTIONS = [
 ]
 EXPLANATION = ('explicit-state search over operation histories on fresh encoded arrays with a list-of-strings model stepped in '
                'lock-step; every operation is applied to every reachable representation (contiguous, row view, strided column view)')
-MANIFEST_TEXT = ('Explicit-state exploration of every operation history up to depth 2-3 (quick) / 3-4 (thorough) over row/column/'
-                 'element indexing (int, negative, slice, step, reversal, mask, index list with repeats, empty), ravel, copy, '
-                 'concatenation, and item assignment on EncodedRaggedArray (all length profiles of <= 3 rows x length <= 3 quick; '
-                 '<= 4 x <= 4 thorough; ASCII, ACGT, ACGTN), 1-d and 2-d EncodedArray; after every history the decoded value and '
-                 'the encoding of the result must equal the list-of-strings model, and ~40 observation expressions per state '
-                 '(scalar/element/column indexing incl. negative, ==/!= with character, string, list, array, str_equal, split, '
-                 'join, ragged_slice, to_string, tolist, string_array, np.concatenate, copy independence) are checked on the '
-                 'unperturbed representation. States merged on (model values, sharing, representation signature).')
+MANIFEST_TEXT = ('Explicit-state exploration of every operation history over row/column/element indexing (int, negative, slice, '
+                 'step, reversal, mask, index list with repeats, empty), ravel, in-place flatten, copy, save, concatenation in both '
+                 'orders and item assignment on EncodedRaggedArray roots of every length profile (quick: <= 3 rows x length <= 3, '
+                 'depth 3 for <= 1 row, 2 for 2 rows and a seed-rotated quarter of the 3-row profiles, 1 for the other 3-row '
+                 'profiles; thorough: <= 4 rows x length <= 4, depth 4 / 3 / 2 / 1 by size) x {ASCII, ACGT, ACGTN}, on 1-d '
+                 'EncodedArrays (length <= 4 depth 3 / <= 5 depth 4) and 2-d EncodedArrays (depth 2 / 3). After every history the '
+                 'decoded value and the encoding of the result must equal the list-of-strings model, and ~40 observation '
+                 'expressions per new state (scalar/element/column indexing incl. negative, ==/!= with character, string, list, '
+                 'array, str_equal, split, join, ragged_slice, to_string, tolist, string_array, np.concatenate, copy '
+                 'independence) are checked on the unperturbed representation. States merged on (model values, sharing, '
+                 'representation signature: shape class, contiguity, column step, row order, writeability).')
 MANIFEST_NOTE = ('Trusted: NumPy, CPython, engine/observe.py (ravel/raw/lengths only), the encodings\' decode tables (C06). '
                  'Bounds: rows, row length, depth, one content fill per profile.')
 TECHNIQUE = 'explicit-state BFS over operation histories with a reference model in lock-step, replay on fresh objects'
@@ -270,6 +274,8 @@ def battery(st, enc):
         add('eq-array', 't == bnp.as_encoded_array(%r, ENC)' % p, 'B1', [a == b for a, b in zip(s, p)])
         add('mask-elem', 't[t == %r]' % present, 'S', ''.join(x for x in s if x == present))
         add('copy', 't.copy()', 'S', s)
+        if m:
+            add('copy-independent', 'c = t.copy(); c[:] = %r; t' % S.mut_char(enc, s), 'S', s)
         add('ravel', 't.ravel()', 'S', s)
         add('concat-self', 'np.concatenate([t, t])', 'S', s + s)
         add('split', 'split(t, %r)' % sep, 'R', s.split(sep))
@@ -293,6 +299,11 @@ def battery(st, enc):
         if kind == 'R':
             add('to-string', 't.ravel().to_string()', 'T', flat)
         add('copy', 't.copy()', kind, rows)
+        if n and min(len(r) for r in rows) >= 1:
+            add('copy-independent', 'c = t.copy(); c[:, -1] = %r; t' % S.mut_char(enc, [r[-1] for r in rows]), kind, rows)
+        elif flat:
+            i = [k for k in range(n) if rows[k]][0]
+            add('copy-independent', 'c = t.copy(); c[%d] = %r; t' % (i, S.alt_text(enc, rows[i])), kind, rows)
         for i in range(-n, n):
             add('row-int', 't[%d]' % i, 'S', rows[i])
         for i in ((0, -1) if n else ()):
@@ -340,6 +351,8 @@ def battery(st, enc):
             add('join', 'join(t, %r)' % sep, 'S', sep.join(rows))
     if st.u is not None:
         add('saved-value', 'u', st.u[0], st.u[1] if st.u[0] == 'S' else list(st.u[1]))
+    # the only observation that writes (into a copy) goes last: if copy() shared memory it must not disturb the others
+    out.sort(key=lambda o: o[0] == 'copy-independent')
     return out
 
 
@@ -622,7 +635,13 @@ def judge_battery(run, ns, sigs, only_obs=None):
             continue
         n_calls += 1
         try:
-            x = eval(_compiled(src, 'eval'), _snap(ns))
+            env = _snap(ns)
+            if ';' in src:          # statements first (on the snapshot namespace), the last part is the observed expression
+                pre, src_expr = src.rsplit(';', 1)
+                exec(_compiled(pre.strip(), 'exec'), env)
+            else:
+                src_expr = src
+            x = eval(_compiled(src_expr.strip(), 'eval'), env)
         except Exception as e:
             _guard(e)
             if _is_unsupported(e):
@@ -636,7 +655,7 @@ def judge_battery(run, ns, sigs, only_obs=None):
         got, want = _norm(rk, val), _norm(rk_exp, exp)
         if got != want:
             f = _features(name, 'observation', st.t, sigs[0])
-            fails.append(('saved-value' if name == 'saved-value' else 'value', f, want, got, None, [name, src]))
+            fails.append(('saved-value' if name in ('saved-value', 'copy-independent') else 'value', f, want, got, None, [name, src]))
             outcomes.append(name + ':differs')
         elif same is False:
             f = _features(name, 'observation', st.t, sigs[0])
@@ -768,7 +787,10 @@ def repro_py(case):
     if case.get('obs'):
         name, src = case['obs']
         exp = [e for e in battery(st, case['enc']) if [e[0], e[1]] == [name, src]]
-        lines.append('print(repr(%s))' % src)
+        if ';' in src:
+            pre, src = src.rsplit(';', 1)
+            lines += [x.strip() for x in pre.split(';')]
+        lines.append('print(repr(%s))' % src.strip())
         if exp:
             lines.append('# expected (%s): %r' % (name, exp[0][3]))
     else:
